@@ -178,6 +178,8 @@ def build(S):
         # the only points allowed off their flux surface are the corners pinned to an X-point:
         # the pin lists name the right radial edge (the X-point's own separatrix) in every topology
         S.under_contract("hypnotoad.cases.tokamak:TokamakEquilibrium.describeDoubleNull", "hypnotoad.cases.tokamak:TokamakEquilibrium.describeSingleNull")
+        S.under_contract("hypnotoad.cases.torpex:TORPEXMagneticField.makeRegions")
+        S.contract("X-point pins[isolated X-point, TORPEX]", "hypnotoad.cases.torpex:TORPEXMagneticField.makeRegions", C08.run_torpex_setup_region, shape="two recorder legs (one reversed)")
         for topo in tk.TOPOLOGIES:
             S.contract("X-point pins[%s]" % topo, "hypnotoad.cases.tokamak:TokamakEquilibrium.describeDoubleNull", C08.make_pins_run(topo), expected_exceptions=(ValueError,), raises_ok=lambda p: True, shape="sizes symbolic")
 
